@@ -160,6 +160,7 @@ var c09Depth = []c09prog{
 	{"mutual", "func ev(n) { od(n + 1) }\nfunc od(n) { ev(n + 1) }", `ev(0)`, 0, true},
 	{"closure", `mkr = () => (n => self(n + 1))`, `mkr()(0)`, 0, true},
 	{"through-eval", `func re(n) { eval("re(" + str(n + 1) + ")") }`, `re(0)`, 0, true},
+	{"eval-of-itself", `sev9 = "eval(sev9)"`, `eval(sev9)`, 0, true}, // recursion without any grol function call
 	{"in-loop", "func dl(n) { for i = 2 { dl(n + 1) } }", `dl(0)`, 0, true},
 	{"in-map-literal", `func dm(n) { {"k": dm(n + 1)} }`, `dm(0)`, 0, true},
 	{"nested-parens", "", "", 0, false},
